@@ -251,6 +251,12 @@ inductive RReach {V : Type} (s0 : RSt V) : RSt V → Prop
   | refl : RReach s0 s0
   | step {s s' : RSt V} (l : RLabel V) : RReach s0 s → rstep s l = some s' → RReach s0 s'
 
+def rrun {V : Type} (s : RSt V) : List (RLabel V) → Option (RSt V)
+  | [] => some s
+  | l :: ls => match rstep s l with
+    | some s' => rrun s' ls
+    | none => none
+
 /-- What destination `j` is still owed of the values already taken from `src`. -/
 def rOwed {V : Type} (j : Nat) : RPc V → List V
   | .sending v k => if k ≤ j then [v] else []
